@@ -11,22 +11,22 @@ PIPE_NOTE = ('Trusted: TLC; the virtual-time asyncio loop (integer-microsecond c
 CHECKS = {
  'C03': (True, 'model_checking',
          'TLA+ spec NdnPit checked exhaustively by TLC (focused configurations, both front-ends, liveness on a small one); TLC graph transition cover + random schedules executed on appv2.NDNApp and app.NDNApp over a virtual-time loop; every execution validated by TLC (NdnPitTrace)',
-         'TLC explores every interleaving of express / Data / Nack / timer expiry / validator completion / caller cancel / shutdown / junk / reconnect over up to 3 pending Interests on same and nested names (CanBePrefix, implicit digest and both, lifetimes 1-2 ticks and the default lifetime, deferred await, cancellation in flight) and checks OnceOnly, RightOutcome, NoResidue, AllAndOnlyMatching, NoUnvalidatedData, JunkInert and Finishes. Schedules covering every transition of a smaller graph, and random larger schedules (6 Interests, 6 names, 40 events, same-instant races in both orders), are driven into both real front-ends; after every stimulus the outcome of every awaitable, its completion instant, the pending-table size, validator invocations and any internal error are recorded and the trace is accepted only if it is a behaviour of NdnPit. The implementation-level model NdnPitImpl (trie of node objects, waiter references, validator tasks) is checked to refine NdnPit. The connection life cycle (AppLife.tla: main_loop ending by shutdown / peer / cancellation / failing after_start, reconnect) is replayed into both front-ends and the pending / outcome variables compared. A packet served in the same loop iteration as the due lifetime timers (packet first) is a stimulus of its own (RecvDataFire), and Data packets come with a Content element, an empty one and none.',
+         'TLC explores every interleaving of express / Data / Nack / timer expiry / validator completion / caller cancel / shutdown / junk / reconnect over up to 3 pending Interests on same and nested names (CanBePrefix, implicit digest and both, lifetimes 1-2 ticks and the default lifetime, deferred await, cancellation in flight) and checks OnceOnly, RightOutcome, NoResidue, AllAndOnlyMatching, NoUnvalidatedData, JunkInert and Finishes. Schedules covering every transition of a smaller graph, and random larger schedules (6 Interests, 6 names, 40 events, same-instant races in both orders), are driven into both real front-ends; after every stimulus the outcome of every awaitable, its completion instant, the pending-table size, validator invocations and any internal error are recorded and the trace is accepted only if it is a behaviour of NdnPit. The implementation-level model NdnPitImpl (trie of node objects, waiter references, validator tasks) is checked to refine NdnPit. The connection life cycle (AppLife.tla: main_loop ending by shutdown / peer / cancellation / failing after_start, reconnect) is replayed into both front-ends and the pending / outcome variables compared. A packet served in the same loop iteration as the due lifetime timers (packet first) is a stimulus of its own (RecvDataFire), and Data packets come with a Content element, an empty one and none. The same for a Nack (RecvNackFire: reason or timeout at the deadline). A few long histories per front-end (48 Interests on one application, one hot name, lifetimes from 20 ms to 70 s) are judged by the same trace module.',
          PIPE_NOTE + ' Known finding KF-legacy-slow-validator is modelled as deviation legacySlowValidator (off in the strict pass).',
          'DESIGN.md 5.1, 6/C03'),
  'C04': (True, 'model_checking',
          'TLA+ spec NdnFib checked exhaustively by TLC; TLC graph transition cover (every name representation) + random attach/detach/Interest/reply histories executed on both front-ends; executions validated by TLC (NdnFibTrace); Dispatcher compared with the declarative longest-prefix definition',
-         'TLC checks on all attach / duplicate-attach / detach histories over a 5-name tree (root included) that the operational trie walk equals the declarative longest attached prefix, each Interest reaches at most one handler, refused attach and detach leave other prefixes untouched, and the reply callback sends only up to the deadline and returns True exactly when it sent. The graph cover is executed on appv2 (attach_handler/detach_handler) and legacy (set_interest_filter/unset_interest_filter) with URI / str-list / bytes / bytearray / memoryview / wire representations, handler identity observed through harness closures, and judged by TLC trace validation.',
+         'TLC checks on all attach / duplicate-attach / detach histories over a 5-name tree (root included) that the operational trie walk equals the declarative longest attached prefix, each Interest reaches at most one handler, refused attach and detach leave other prefixes untouched, and the reply callback sends only up to the deadline and returns True exactly when it sent. The graph cover is executed on appv2 (attach_handler/detach_handler) and legacy (set_interest_filter/unset_interest_filter) with URI / str-list / bytes / bytearray / memoryview / wire representations, handler identity observed through harness closures, and judged by TLC trace validation. A few long histories per front-end (100 Interests on one application object, most of them needing validation, most validators failing or raising; replies whose size sits on the 253 / 65536 length boundaries or exceeds 8.8 kB) are judged by the same trace module.',
          PIPE_NOTE + ' Reply callback exists only in appv2. At now = deadline sending or refusing are both accepted.',
          'DESIGN.md 5.1, 6/C04'),
  'C05': (True, 'model_checking',
          'TLA+ specs NdnPit (verdict dimension open) and NdnFib (digest/validator gate) checked by TLC; transition covers and random schedules with harness validators of scheduled verdict and latency executed on both front-ends; validated by TLC trace modules',
-         'TLC checks NoUnvalidatedData (Data is returned only by the step in which the validator of that entry returns an accepting verdict no later than the deadline; other verdicts give a failure carrying packet and verdict; a validator still running at the deadline gives timeout) over all six v2 verdicts incl. a validator raising TimeoutError and legacy truthy/falsy values, and IntGate (parameterised/signed Interests need a correct parameters digest and an accepting verdict of the validator in force; plain ones bypass it) over all parameter/signature/digest combinations. Both are bound to the code by replaying TLC-generated and random schedules and validating the recorded traces with TLC.',
+         'TLC checks NoUnvalidatedData (Data is returned only by the step in which the validator of that entry returns an accepting verdict no later than the deadline; other verdicts give a failure carrying packet and verdict; a validator still running at the deadline gives timeout) over all six v2 verdicts incl. a validator raising TimeoutError and legacy truthy/falsy values, and IntGate (parameterised/signed Interests need a correct parameters digest and an accepting verdict of the validator in force; plain ones bypass it) over all parameter/signature/digest combinations. Both are bound to the code by replaying TLC-generated and random schedules and validating the recorded traces with TLC. A refused duplicate declaration brings a validator of its own that must never be called; long histories (100 incoming Interests, 48 expressed ones) are part of both tiers.',
          PIPE_NOTE + ' Known finding KF-legacy-slow-validator (legacy front-end never turns a slow Data validator into a timeout) is reported as KNOWN-FINDING.',
          'DESIGN.md 5.1, 6/C05'),
  'C06': (True, 'model_checking',
          'TLA+ spec Framing (all chunkings as Feed interleavings) checked by TLC and bound to the real StreamFace.run via FramingTrace; RecvJunk inertness in NdnPit/NdnFib checked by TLC and bound by delivering a mutation corpus in random pipeline states of both front-ends and to the datagram handler',
-         'Framing: TLC enumerates packet sequences with 1/3/5/9-byte type and length forms, every truncation point and every way of cutting the stream into reads, checking that exactly the complete packets are delivered once, in order, never early, and that the reader stops at end of stream. The transition cover, every chunking x truncation of short streams and random chunkings of streams with real multi-byte lengths run on a real asyncio.StreamReader + StreamFace.run and are judged by TLC; UnixFace and TcpFace are also run over loopback sockets against an in-process server (chunked writes, orderly close, RST) and their final state judged by the same trace module. Robustness: >2000 malformed / truncated / fragment / unknown / unaddressed byte strings are delivered through _receive of both front-ends in random PIT/FIB states (and to UdpFace.datagram_received); the trace is accepted only if the junk step changes nothing, raises nothing, and the untouched Interests still complete as the spec says; every second application runs with DEBUG logging so that the debug branches of the receive path are executed too. The corpus also holds Interests with the intact Name of something pending or attached and ill-formed octets behind it, bare and under a Nack header.',
+         'Framing: TLC enumerates packet sequences with 1/3/5/9-byte type and length forms, every truncation point and every way of cutting the stream into reads, checking that exactly the complete packets are delivered once, in order, never early, and that the reader stops at end of stream. The transition cover, every chunking x truncation of short streams and random chunkings of streams with real multi-byte lengths run on a real asyncio.StreamReader + StreamFace.run and are judged by TLC; UnixFace and TcpFace are also run over loopback sockets against an in-process server (chunked writes, orderly close, RST) and their final state judged by the same trace module. Robustness: >2000 malformed / truncated / fragment / unknown / unaddressed byte strings are delivered through _receive of both front-ends in random PIT/FIB states (and to UdpFace.datagram_received); the trace is accepted only if the junk step changes nothing, raises nothing, and the untouched Interests still complete as the spec says; every second application runs with DEBUG logging so that the debug branches of the receive path are executed too. The corpus also holds Interests with the intact Name of something pending or attached and ill-formed octets behind it, bare and under a Nack header. Bursts of several hundred complete packets sitting in the reader buffer at once (alone, behind a trickle, in two reads, with a cut tail) are framed by the real StreamFace.run and judged by FramingTrace.',
          PIPE_NOTE + ' Mutants of packets that address pending state are used only when the independent strict TLV reader finds them structurally malformed.',
          'DESIGN.md 5.2, 6/C06'),
  'C09': (True, 'model_checking',
@@ -36,8 +36,8 @@ CHECKS = {
          'DESIGN.md 5.4, 6/C09'),
  'C19': (True, 'model_checking',
          'TLA+ spec SegFetch checked exhaustively by TLC; TLC state-graph transition cover replayed on segment_fetcher; recorded executions validated by TLC (SegFetchTrace)',
-         'TLC visits every object shape x discovery answer x final marker x retry limit x loss/Nack/validation-failure pattern in the bound and checks InOrderOnce, DoneComplete, RetryBound, FailsIffExhausted, NoSkip, Terminates; every transition of that graph is then driven through the real generator on a virtual-time loop with the projection compared after each step, and larger random executions (also two concurrent fetches on one application) are accepted only if SegFetchTrace can explain every event. Dimensions the model abstracts from are varied with the configuration (FinalBlockId on every / the last / the last two segments, an empty segment, default arguments, name as str / list / wire). SegFetchInd is an inductive invariant discharged by Apalache for unbounded sizes and SegFetchRef a refinement checked by TLC. An answer arriving in the instant the lifetime runs out (RespDataLate, also in the same loop iteration as the timer) may count as answered or as timed out, nothing else; segments may lack a Content element.',
-         'Trusted: TLC, the virtual-time loop, the harness producer. Bounded: <=4 segments/3 retries exhaustively, <=12 segments/5 retries in traces.',
+         'TLC visits every object shape x discovery answer x final marker x retry limit x loss/Nack/validation-failure pattern in the bound and checks InOrderOnce, DoneComplete, RetryBound, FailsIffExhausted, NoSkip, Terminates; every transition of that graph is then driven through the real generator on a virtual-time loop with the projection compared after each step, and larger random executions (also two concurrent fetches on one application) are accepted only if SegFetchTrace can explain every event. Dimensions the model abstracts from are varied with the configuration (FinalBlockId on every / the last / the last two segments, an empty segment, default arguments, name as str / list / wire). SegFetchInd is an inductive invariant discharged by Apalache for unbounded sizes and SegFetchRef a refinement checked by TLC. An answer arriving in the instant the lifetime runs out (RespDataLate, also in the same loop iteration as the timer) may count as answered or as timed out, nothing else; segments may lack a Content element. Objects of 257 / 300 (thorough: 256 / 600 / 1100) segments are fetched and judged by the same trace module.',
+         'Trusted: TLC, the virtual-time loop, the harness producer. Bounded: <=4 segments/3 retries exhaustively, <=12 segments/5 retries in random traces, a few objects of up to 1100 segments.',
          'DESIGN.md 6/C19'),
  'C20': (True, 'model_checking',
          'TLA+ reference ClientConf checked by TLC over the enumerated product (ClientConfMC); each state materialised on disk/environment and compared with read_client_conf, default_keychain, default_face; random configurations judged by TLC (ClientConfJudge)',
@@ -60,7 +60,7 @@ CHECKS.update({
          'DESIGN.md 5.3, 6/C02'),
  'C10': (True, 'model_checking',
          'TLA+ specs NdnPit (envelope/reason parameters) and NdnFib (PIT-token echo) checked by TLC; covers and random schedules with envelopes built by an independent NDNLPv2 writer executed on both front-ends and validated by TLC; LP codec round trips against the strict reader',
-         'In NdnPit a packet has the same successor whatever envelope carries it (bare, LpPacket, LpPacket with optional and unknown headers), a Nack completes exactly the pending Interests with the same full name with precisely its reason, fragments are junk; in NdnFib every reply is an envelope carrying the Interest\'s token (bare without token). The real front-ends are driven with envelopes produced by the harness\' own writer: reasons 0 (also as an empty Nack header), 50, 150, 2^32+5, 2^64-1, tokens of length 0/1/8/32/33, fragmented envelopes around matching Data, several token-bearing Interests answered in any order, known NDNLPv2 headers (NextHopFaceId, CachePolicy, TxSequence, NonDiscovery) and a PIT token on received envelopes, Nack-headed envelopes around Data; reply envelopes must have the Fragment last; the recorded traces must be behaviours of the specs.',
+         'In NdnPit a packet has the same successor whatever envelope carries it (bare, LpPacket, LpPacket with optional and unknown headers), a Nack completes exactly the pending Interests with the same full name with precisely its reason, fragments are junk; in NdnFib every reply is an envelope carrying the Interest\'s token (bare without token). The real front-ends are driven with envelopes produced by the harness\' own writer: reasons 0 (also as an empty Nack header), 50, 150, 2^32+5, 2^64-1, tokens of length 0/1/8/32/33, fragmented envelopes around matching Data, several token-bearing Interests answered in any order, known NDNLPv2 headers (NextHopFaceId, CachePolicy, TxSequence, NonDiscovery) and a PIT token on received envelopes, Nack-headed envelopes around Data; reply envelopes must have the Fragment last; the recorded traces must be behaviours of the specs. Replies come in sizes 243..256 (the envelope's length crosses 253 while the fragment's does not), 65530..65540 and above 8.8 kB; a buffer handed to the face must not change afterwards (transports queue references).',
          PIPE_NOTE + ' Token clause decided on appv2 only (the legacy front-end has no reply callback).',
          'DESIGN.md 5.1, 6/C10'),
  'C16': (True, 'model_checking',
